@@ -200,6 +200,8 @@ def judge_member(w, loaded, model: Model, contracts, spec, cls: str, key: str, m
     inv_free = not model.invs_around(cls, m)
     hub = loaded.hub
     cap = 64 if w.tier == "thorough" else 32
+    if not inv_free:
+        judge_invariants_around_member(w, loaded, model, contracts, spec, cls, key, m, names, meta)
     for truth in gen.all_truth(ids, w.rng, cap):
         if not inv_free:
             break
@@ -231,6 +233,49 @@ def judge_member(w, loaded, model: Model, contracts, spec, cls: str, key: str, m
                         {"lists": {"pre": [[tok_of(c) for c in g] for g in chk.__preconditions__], "post": post_ids}})
         if w.counters["manual_vs_real_calls"] % 503 == 1:
             w.sample({"class": cls, "member": key, "truth": truth, "manual": manual, "real": real})
+
+
+def judge_invariants_around_member(w, loaded, model: Model, contracts, spec, cls: str, key: str, m, names, meta) -> None:
+    """An operation from outside on an instance whose invariant does not hold: evaluating the listed invariants of the event by hand
+    (the way the integrators do) gives the verdict of the real operation."""
+    import icontract  # pylint: disable=import-outside-toplevel
+
+    cls_obj = loaded.get(cls)
+    around = model.invs_around(cls, m)
+    event = icontract.InvariantCheckEvent.SETATTR if (m["kind"] == "pset" and model.invs_on(cls, "SETATTR")) else icontract.InvariantCheckEvent.CALL
+    listed = [c for c in getattr(cls_obj, "__invariants__", []) if event in c.check_on]
+    want = dedup([i["id"] for i in around])
+    hub = loaded.hub
+    for falsy in want:
+        # (the constructor evaluates every invariant: the instance is built while all of them hold, the one under test turns falsy
+        # from its next evaluation on)
+        n_ctor = sum(1 for i in model.eff_invs(cls) if i["id"] == falsy)
+        truth = {falsy: {"seq": [["T", 0]] * n_ctor + [["F", 0]]}}
+        call = {"target": "member", "cls": cls, "key": key, "truth": truth, "pos": [], "kw": names}
+        if m["kind"] == "pset":
+            call = {"target": "member", "cls": cls, "key": key, "truth": truth}
+        obs = runner.perform(loaded, model, call)
+        if obs.setup_error:
+            return
+        real = "ok" if obs.returned else next((cid for cid in want if c04.error_matches(loaded, contracts, obs.exc, cid)), "other")
+        c_obs = runner.construct(loaded, model, cls)
+        if not c_obs.returned:
+            return
+        hub.reset()
+        hub.truth = {falsy: False}
+        manual = "ok"
+        for contract in listed:
+            res = contract.condition(self=c_obs.instance) if "self" in contract.condition_arg_set else contract.condition()
+            if not res:
+                manual = tok_of(contract)
+                break
+        w.count("manual_vs_real_calls")
+        w.count("manual_vs_real_operations_on_broken_objects")
+        w.case((meta, cls, key, "inv-around", falsy))
+        if manual != real:
+            w.violation("C18/manual-invariant-evaluation-disagrees", "{}.{} on an instance whose invariant {} does not hold: by hand {} vs the real "
+                        "operation {}".format(cls, key, falsy, manual, real), {"prog": spec, "cls": cls, "call": call, "meta": meta})
+
 
 
 def judge_invariants(w, loaded, model: Model, contracts, spec, cls: str, meta) -> None:
